@@ -382,6 +382,10 @@ def execute(scen):
     fam, fault = scen["family"], scen["fault"]
     h = setup(fam)
     spec, corpus = fam["spec"], fam["corpus"]
+    # every probe also as a read-only query (f.resolve: which method would run)
+    corpus = corpus + [dict(c, kind="resolve") for c in corpus
+                       if not c.get("kw") and c.get("kind") != "resolve"
+                       and not spec.get("meta", {}).get("self")]
     key = fam["label"]
     sim = _sim(fam)
     kw = {}
